@@ -41,6 +41,36 @@ impl Tier {
     }
 }
 
+/// Multiplier for the random case counts of the thorough tier (the counts written next to each
+/// strategy are the base); chosen so that every thorough command runs for roughly 5-8 minutes
+/// on 16 cores. BV_THOROUGH_SCALE multiplies it further (deeper campaigns, or <1 for a trial).
+pub fn thorough_scale(prop: &str) -> f64 {
+    let base = match prop {
+        "C01" => 2.5,
+        "C02" => 1.5,
+        "C03" => 3.0,
+        "C04" => 2.5,
+        "C05" => 10.0,
+        "C06" => 15.0,
+        "C07" | "C08" => 3.0,
+        "C09" => 5.0,
+        "C10" => 7.0,
+        "C11" => 20.0,
+        "C12" => 10.0,
+        "C13" => 12.0,
+        "C14" => 8.0,
+        "C15" => 5.0,
+        "C16" => 10.0,
+        "C17" => 2.5,
+        "C18" => 10.0,
+        "C19" => 12.0,
+        "C20" => 3.0,
+        _ => 1.0,
+    };
+    let extra = std::env::var("BV_THOROUGH_SCALE").ok().and_then(|s| s.parse::<f64>().ok()).unwrap_or(1.0);
+    base * extra
+}
+
 /// An oracle failure on one case.
 #[derive(Clone, Debug, Serialize, Deserialize)]
 pub struct Failure {
@@ -499,6 +529,7 @@ impl Ctx {
             return;
         }
         self.cur_check = check.name();
+        let total_cases = if self.tier == Tier::Thorough { (total_cases as f64 * thorough_scale(&self.prop)) as u64 } else { total_cases };
         let mut remaining = self.share(total_cases);
         self.stats.planned += remaining;
         let mut round: u64 = 0;
